@@ -137,9 +137,26 @@ func handBlob(d func(int) int, seed uint64) ([]byte, []string) {
 			// the first listing carries the non-zero attributes, the repetition resets them
 			ents[0].UID, ents[0].GID = 7, 8
 			ents[0].Xattrs = map[string][]byte{"user.first": []byte("1")}
+			// several attributes on the first listing, fewer (or one, or an empty one) on the repetition
+			switch d(4) {
+			case 1:
+				ents[0].Xattrs = map[string][]byte{"user.first": []byte("1"), "user.second": []byte("2"), "user.third": []byte("3")}
+			case 2:
+				ents[0].Xattrs = map[string][]byte{"user.first": []byte("1"), "user.second": []byte("2"), "user.third": []byte("3")}
+				e.Xattrs = map[string][]byte{"user.last": []byte("9")}
+			case 3:
+				ents[0].Xattrs = map[string][]byte{"user.first": []byte("1"), "user.second": []byte("2")}
+				e.Xattrs = map[string][]byte{"user.empty": {}, "user.second": []byte("x")}
+			}
 		}
 		ents = append(ents, e)
 		notes = append(notes, "repeated-dir")
+	}
+	if d(3) == 0 { // a regular file listed twice (as the Writer API emits for a tar with a duplicated name): the later entry replaces the earlier one
+		addFile("etc/dup", data(7, 2*cs+3), true)
+		addFile("etc/between", data(9, 1+d(cs)), true)
+		addFile("etc/dup", data(8, 1+d(2*cs)), d(2) == 0)
+		notes = append(notes, "repeated-file")
 	}
 	if d(2) == 0 { // hardlink to hardlink
 		ents = append(ents, &estargz.TOCEntry{Name: "hl1", Type: "hardlink", LinkName: "etc/conf"}, &estargz.TOCEntry{Name: "hl2", Type: "hardlink", LinkName: "hl1"})
@@ -350,7 +367,7 @@ func run(t *testing.T, tape *simrt.Tape) *hx.Outcome {
 			continue
 		}
 		cs := []int{8, 17, 64, 50, 100}[d(5)]
-		spec := common.GenTar(d, tape.Seed+uint64(i)*977, common.GenOpts{ChunkSize: cs, MaxEntries: 10, OddNames: d(2) == 0, BigFiles: d(2) == 0})
+		spec := common.GenTar(d, tape.Seed+uint64(i)*977, common.GenOpts{ChunkSize: cs, MaxEntries: 10, OddNames: d(2) == 0, BigFiles: d(2) == 0, Dups: d(3) == 0})
 		bc := common.BuildCfg{ChunkSize: cs, Compression: d(2), Workers: 1 + d(2)}
 		if d(3) == 0 {
 			bc.MinChunkSize = 3 * cs
